@@ -711,7 +711,15 @@ class Exec:
         if m is None:
             raise Unsupported('statement %s at line %d' % (type(s).__name__, s.lineno))
         self.interpreted += 1
-        return m(s)
+        r = m(s)
+        bi = getattr(self.k, 'boundary_invariant', None)
+        if bi is not None and self.depth == 0 and not isinstance(s, (ast.If, ast.For, ast.While, ast.Try, ast.With, ast.FunctionDef)):
+            # crash points: the invariant must hold between any two statements of the function (DESIGN §2.1, C07)
+            c = SpecCtx(self, self.args, self.old, self.st.snap())
+            c.sks = self.prove_ctx.sks
+            for nm, f in self._clauses(bi, c).items():
+                self.vc('boundary.%s@%d' % (nm, s.lineno), f, s.lineno, note='after the statement at line %d' % s.lineno)
+        return r
 
     def st_Pass(self, s):
         pass
@@ -1989,6 +1997,8 @@ class Exec:
                 v = self.eval(a.value)
                 if isinstance(v, (tuple, list)):
                     args.extend(v)
+                elif isinstance(v, V) and isinstance(v.ty, Rec):
+                    args.extend(self.unpack(v, len(v.ty.fields), e.lineno))
                 else:
                     raise Unsupported('starred argument of unknown length')
             else:
